@@ -75,12 +75,22 @@ def build_disciplines(inst, jac_kind="dense", declare_linear=False):
     return out
 
 
-def build_space(inst, names):
-    """A real DesignSpace with the variables `names` (in this order), bounds and current values of the instance."""
+def build_space(inst, names, bounds=None):
+    """A real DesignSpace with the variables `names` (in this order), bounds and current values of the instance.
+
+    bounds (printed by the specification): for every name, which components have a lower / an upper bound; a variable
+    without any bound is added without the bound arguments, a partly bounded one with infinite entries.
+    """
     from gemseo.algos.design_space import DesignSpace
 
     ds = DesignSpace()
     for n in names:
-        ds.add_variable(n, size=inst["size"][n], lower_bound=np.array(inst["lb"][n], dtype=float),
-                        upper_bound=np.array(inst["ub"][n], dtype=float), value=np.array(inst["cur"][n], dtype=float))
+        kw = {}
+        haslb = bounds[n]["haslb"] if bounds else [True] * inst["size"][n]
+        hasub = bounds[n]["hasub"] if bounds else [True] * inst["size"][n]
+        if any(haslb):
+            kw["lower_bound"] = np.where(haslb, np.array(inst["lb"][n], dtype=float), -np.inf)
+        if any(hasub):
+            kw["upper_bound"] = np.where(hasub, np.array(inst["ub"][n], dtype=float), np.inf)
+        ds.add_variable(n, size=inst["size"][n], value=np.array(inst["cur"][n], dtype=float), **kw)
     return ds
